@@ -346,6 +346,11 @@ func setPatchDiffElementContext(patch []patchElement, d *DiffElement) ([]patchEl
 		// Not an array
 		return patch, nil
 	}
+	if int(secondIndex) == -1 {
+		// The append token "-" has no position a context test
+		// could be adjacent to. Not a context pattern.
+		return patch, nil
+	}
 	switch {
 	case firstIndex == secondIndex && (patch[1].Op == "replace" || patch[1].Op == "remove"):
 		// No before or after context.
